@@ -230,6 +230,12 @@ func Alphabet(c *Config, gs *pf.GameState) []Op {
 				}
 			}
 		}
+		if c.ViaSeat {
+			// the same actions through the seat's own handle, Game.Player(i).X(), instead of Game.X()
+			for i := range ops {
+				ops[i].Seat = cur
+			}
+		}
 		return ops
 	}
 	return nil
